@@ -115,6 +115,17 @@ def main():
                 with open(p, "w") as f:
                     f.write("@startuml\n" + "\n".join(f"[{a}] --> [{b}]" for a, b in zip(comps, comps[1:])) + "\n@enduml\n")
                 items[f"scan{t}.diagram"] = out(DiagramRule().from_file(Path(p)).base_module_included_in_module_names(), ev)
+        # a diagram rule over short component names + with_base_module, many of its generated rules violated at once: the
+        # aggregated message (its lines AND their order) is part of the outcome
+        comps = [f"c{i}" for i in range(9)]
+        dmods = ["r"] + [f"r.{c}" for c in comps]
+        dimps = [(f"r.c{(i + 1) % 9}", f"r.c{i}") for i in range(9)] + [("r.c0", "r.c4"), ("r.c7", "r.c2")]
+        evd = EvaluableArchitectureGraph(NetworkxGraph(list(dmods), [AbsoluteImport(a, b) for a, b in dimps]))
+        p = os.path.join(work, "based.puml")
+        with open(p, "w") as f:
+            f.write("@startuml\n" + "\n".join(f"[c{i}] --> [c{(i + 1) % 9}]\n[c{i}] -> [c{(i + 3) % 9}]" for i in range(9)) + "\n@enduml\n")
+        for mode in (True, False):
+            items[f"diagram.based.{mode}"] = out(DiagramRule(should_only_rule=mode).from_file(Path(p)).with_base_module("r"), evd)
     finally:
         shutil.rmtree(work, ignore_errors=True)
 
